@@ -37,6 +37,22 @@ class HarnessError(Exception):
     """the harness's own preconditions failed: exit 2, never a verdict"""
 
 
+def default_signal_dispositions():
+    """children inherit IGNORED signal dispositions (a check started under nohup, from a daemon, by some CI runners ignores
+    SIGHUP/SIGINT/SIGQUIT): a child that is sent such a signal would then not die, and the check would blame the code.
+    Restore the default for every signal that is currently ignored (handlers installed by the harness are left alone)."""
+    import signal
+    for s in range(1, 65):
+        if s in (signal.SIGKILL, signal.SIGSTOP, signal.SIGPIPE, signal.SIGCHLD, signal.SIGURG, signal.SIGWINCH, signal.SIGCONT,
+                 signal.SIGTSTP, signal.SIGTTIN, signal.SIGTTOU, 32, 33):
+            continue
+        try:
+            if signal.getsignal(s) == signal.SIG_IGN:
+                signal.signal(s, signal.SIG_DFL)
+        except (OSError, ValueError, RuntimeError):
+            pass
+
+
 def import_lithium():
     """import lithium from REPO's current working tree and make sure that is what we got"""
     src = str(REPO / "src")
